@@ -971,7 +971,8 @@ impl MachineState {
                 if name == atom!("-") && arity == 2 {
                     Ok((heap_loc_as_cell!(s+1), heap_loc_as_cell!(s+2)))
                 } else {
-                    let err = self.type_error(ValidType::Pair, self.heap[s]);
+                    // the culprit is the whole element, not its bare functor cell
+                    let err = self.type_error(ValidType::Pair, store_v);
                     Err(self.error_form(err, stub_gen()))
                 }
             }
